@@ -66,6 +66,9 @@ func fixedPrograms(env *kernel.Env) []progRef {
 		if err != nil {
 			continue
 		}
+		if _, err := os.Stat(filepath.Join(env.VerifDir, "corpus", e.Name(), "verif-no-c07")); err == nil {
+			continue // makes a generator die with a fatal stack overflow (not this property's business)
+		}
 		ps = append(ps, progRef{Kind: "corpus", Name: e.Name(), Files: strings.Fields(string(b))})
 	}
 	return ps
@@ -169,6 +172,18 @@ func load(env *kernel.Env, ref progRef) *loaded {
 	if name, d := differ(ld.baseline, again); name != "" {
 		ld.pending = &kernel.Violation{Property: "C07", Clause: "second_generation_in_process_differs", Signature: targetOf(name),
 			Detail: fmt.Sprintf("program %s: output %s differs between the first and the second generation in one process (canonical map order both times)\n%s", key, name, d)}
+	}
+	if ld.pending == nil {
+		// every target alone on a fresh analysis: the order in which targets
+		// are generated must not matter
+		iso := l.GenerateIsolated()
+		for name, text := range iso {
+			if base, ok := ld.baseline[name]; ok && base != text {
+				_, d := differ(map[string]string{name: base}, map[string]string{name: text})
+				ld.pending = &kernel.Violation{Property: "C07", Clause: "output_depends_on_what_was_generated_before", Signature: targetOf(name),
+					Detail: fmt.Sprintf("program %s: output %s generated alone on a fresh analysis differs from the same target generated after the other targets on a shared analysis\n%s", key, name, d)}
+			}
+		}
 	}
 	cache[key] = ld
 	return ld
